@@ -351,7 +351,8 @@ def render_a(A, rng) -> dict:
 
 # --------------------------------------------------------------------------- project B
 
-def gen_b(rng: random.Random, A: dict, links_ok: bool = True, clashes: bool = True) -> dict:
+def gen_b(rng: random.Random, A: dict, links_ok: bool = True, clashes: bool = True, indirect: bool = True,
+          doc_only: bool = True, iface_use: bool = True) -> dict:
     """links_ok: include [[...]] references to A's entities."""
     ctr = Ctr("B")
     expect = []   # {"page": (dir, name), "text": name, "target": ("A"|"B", tracer), "why": ...}
@@ -420,35 +421,89 @@ def gen_b(rng: random.Random, A: dict, links_ok: bool = True, clashes: bool = Tr
             bmods.append(fm)
         if cm["types"] or cm["subs"]:
             bmods.append(cm)
-    # ---- ordinary modules using A
+    # ---- prelude modules: B's own modules that use A and pass its entities on (the usual "kinds" / "prelude"
+    #      pattern); other modules of B then get A's entities *indirectly*, through one or two modules of B
+    def a_source(am):
+        """what `use <module of A>` makes accessible: exported name -> entity of A, per class of names"""
+        pn = public_names(A, am["name"])
+        org = origin(A, am["name"])
+        return {"name": am["name"], "tracer": am["tracer"], "side": "A", "via": 0,
+                "exposes": {k: {n: find_entity(A, org[n], k) for n in pn[k]} for k in KINDS},
+                "alias": {n: org[n] for k in KINDS for n in pn[k] if org[n] != n}}
+
+    free_amods = [m for m in amods if not (clash_mod and m["name"].lower() == clash_mod["name"].lower())]
+    preludes = []
+    if indirect and free_amods and rng.random() < 0.6:
+        for level in range(2 if rng.random() < 0.35 else 1):
+            pm = {"name": nm("pre"), "tracer": ctr.tracer(), "uses": [], "types": [], "subs": [], "refs": [],
+                  "vars": [{"name": nm("var"), "type": None, "tracer": ctr.tracer()}], "prelude": True,
+                  "default": rng.choice(["public", "public", "private"]), "public_stmt": rng.random() < 0.3,
+                  "public_list": []}
+            page = ("module", pm["name"])
+            got = {k: {} for k in KINDS}
+            palias = {}
+            srcs = [preludes[-1]] if level else [a_source(m) for m in rng.sample(free_amods, min(len(free_amods), rng.randint(1, 2)))]
+            for src in srcs:
+                names = sorted(n for k in KINDS for n in src["exposes"][k])
+                only = None
+                if names and rng.random() < 0.3:
+                    only = sorted(rng.sample(names, rng.randint(1, min(4, len(names)))))
+                pm["uses"].append({"mod": src["name"], "only": only})
+                expect.append({"page": page, "text": src["name"], "target": (src["side"], src["tracer"]),
+                               "why": "use" if src["side"] == "A" else "use of a prelude module of B"})
+                for k in KINDS:
+                    for n, e in src["exposes"][k].items():
+                        if only is None or n in only:
+                            got[k][n] = e
+                            if n in src["alias"]:
+                                palias[n] = src["alias"][n]
+            if pm["default"] == "private":
+                # only what a PUBLIC statement names is passed on
+                names = sorted(n for k in KINDS for n in got[k])
+                pm["public_list"] = [n for n in names if rng.random() < 0.7] or names[:1]
+                got = {k: {n: e for n, e in got[k].items() if n in pm["public_list"]} for k in KINDS}
+            bmods.append(pm)
+            preludes.append({"name": pm["name"], "tracer": pm["tracer"], "side": "B", "via": level + 1, "exposes": got,
+                             "alias": {n: o for n, o in palias.items() if any(n in got[k] for k in KINDS)}})
+    # ---- ordinary modules using A (directly, or through a prelude module of B)
     for _ in range(rng.randint(1, 2)):
         bm = {"name": nm("mod"), "tracer": ctr.tracer(), "uses": [], "types": [], "vars": [], "subs": [], "refs": []}
         page = ("module", bm["name"])
-        usable = [m for m in amods]
+        usable = [("A", m) for m in amods]
         rng.shuffle(usable)
-        visible = {k: {} for k in KINDS}       # lower name -> (A module, entity) reachable here
+        usable = usable[: rng.randint(1, 2)]
+        if preludes and rng.random() < 0.75:
+            # (the deepest prelude first: A's entities arrive through as many modules of B as there are)
+            usable = [("B", preludes[-1] if rng.random() < 0.7 else rng.choice(preludes))] + usable[: rng.randint(0, 1)]
+        visible = {k: {} for k in KINDS}       # lower name -> entity of A reachable here
         alias = {}                             # exported (renamed) name -> entity name
-        for am in usable[: rng.randint(1, 2)]:
-            is_clash = clash_mod is not None and am["name"].lower() == clash_mod["name"].lower()
-            pn = public_names(A, am["name"])
+        how = {}                               # name -> number of modules of B it came through
+        for side_, am in usable:
+            is_clash = side_ == "A" and clash_mod is not None and am["name"].lower() == clash_mod["name"].lower()
             if is_clash:
                 bm["uses"].append({"mod": am["name"], "only": None})
                 expect.append({"page": page, "text": clash_mod["name"], "target": ("B", clash_mod["tracer"]),
                                "why": "use of a module name defined in both"})
                 continue
+            src = a_source(am) if side_ == "A" else am
             only = None
-            allnames = sorted(n for k in KINDS for n in pn[k])
+            allnames = sorted(n for k in KINDS for n in src["exposes"][k])
             if allnames and rng.random() < 0.3:
                 only = sorted(rng.sample(allnames, rng.randint(1, min(3, len(allnames)))))
-            bm["uses"].append({"mod": am["name"], "only": only})
-            expect.append({"page": page, "text": am["name"], "target": ("A", am["tracer"]), "why": "use"})
-            org = origin(A, am["name"])
+            bm["uses"].append({"mod": src["name"], "only": only})
+            expect.append({"page": page, "text": src["name"], "target": (src["side"], src["tracer"]),
+                           "why": "use" if side_ == "A" else "use of a prelude module of B"})
             for k in KINDS:
-                for n in pn[k]:
+                for n, e in src["exposes"][k].items():
                     if only is None or n in only:
-                        visible[k][n] = find_entity(A, org[n], k)
-                        if org[n] != n:
-                            alias[n] = org[n]
+                        visible[k][n] = e
+                        how[n] = min(how.get(n, src["via"]), src["via"])
+                        if n in src["alias"]:
+                            alias[n] = src["alias"][n]
+        bm["indirect"] = sorted(n for n, v in how.items() if v)
+
+        def via(n):
+            return f" (through {how[n]} module{'s' if how[n] > 1 else ''} of B)" if how.get(n) else ""
         # names B defines itself (clash scenarios) are not referred to as A's from other modules:
         # which of the two a reader would expect there is not what this property is about
         taken = {x["name"].lower() for mm in bmods for x in mm["types"] + mm["subs"]}
@@ -466,12 +521,12 @@ def gen_b(rng: random.Random, A: dict, links_ok: bool = True, clashes: bool = Tr
                 v = {"name": nm("var"), "type": spell(rng, tn), "tracer": ctr.tracer()}
                 bm["vars"].append(v)
                 expect.append({"page": page, "text": tn, "alt": alias.get(tn), "target": ("A", visible["types"][tn]["tracer"]),
-                               "why": "variable of external type"})
+                               "why": "variable of external type" + via(tn)})
         if vabs and rng.random() < 0.6:
             an = vabs[0]
             bm["vars"].append({"name": nm("var"), "procptr": spell(rng, an), "tracer": ctr.tracer()})
             expect.append({"page": page, "text": an, "target": ("A", visible["absints"][an]["tracer"]),
-                           "why": "procedure pointer with external abstract interface"})
+                           "why": "procedure pointer with external abstract interface" + via(an)})
         # extension of an external type
         if vtypes and rng.random() < 0.7:
             tn = rng.choice(vtypes)
@@ -480,16 +535,16 @@ def gen_b(rng: random.Random, A: dict, links_ok: bool = True, clashes: bool = Tr
                 cn = rng.choice(vtypes)
                 t["comps"].append({"name": nm("cmp"), "type": cn, "tracer": ctr.tracer()})
                 expect.append({"page": ("type", t["name"]), "text": cn, "alt": alias.get(cn), "target": ("A", visible["types"][cn]["tracer"]),
-                               "why": "component of external type"})
+                               "why": "component of external type" + via(cn)})
             bm["types"].append(t)
             expect.append({"page": ("type", t["name"]), "text": tn, "alt": alias.get(tn), "target": ("A", visible["types"][tn]["tracer"]),
-                           "why": "extends external type"})
+                           "why": "extends external type" + via(tn)})
         # a subroutine with arguments of external types, calling external procedures
         s = {"name": nm("sub"), "tracer": ctr.tracer(), "args": [], "calls": [], "refs": []}
         for tn in vtypes[:1]:
             s["args"].append({"name": nm("arg"), "type": spell(rng, tn)})
             expect.append({"page": ("proc", s["name"]), "text": tn, "alt": alias.get(tn), "target": ("A", visible["types"][tn]["tracer"]),
-                           "why": "argument of external type"})
+                           "why": "argument of external type" + via(tn)})
         # calls of A's procedures (the statement's "calls"): a subroutine, a function reference, a generic
         # name, a type-bound procedure through the argument of A's type - visible in B's call graphs only
         arg0 = s["args"][0] if s["args"] else None
@@ -505,7 +560,7 @@ def gen_b(rng: random.Random, A: dict, links_ok: bool = True, clashes: bool = Tr
                 continue
             s["calls"].append(c)
             expect.append({"page": ("proc", s["name"]), "text": pn_, "alt": alias.get(pn_), "target": ("A", e["tracer"]),
-                           "why": "call of external " + c["kind"], "graph": True})
+                           "why": "call of external " + c["kind"] + via(pn_), "graph": True})
         if arg0_type is not None:
             for b in arg0_type["bound"][:2]:
                 s["calls"].append({"kind": "binding", "stmt": f"call {arg0['name']}%{spell(rng, b['name'])}()"})
@@ -519,41 +574,37 @@ def gen_b(rng: random.Random, A: dict, links_ok: bool = True, clashes: bool = Tr
                 expect.append({"page": ("proc", s["name"]), "text": am["name"], "target": ("A", am["tracer"]),
                                "why": "use in procedure"})
         bm["subs"].append(s)
+        # an interface body (an external procedure of B described in the module) with its own USE of a module of A
+        if iface_use and free_amods and rng.random() < 0.35:
+            am = rng.choice(free_amods)
+            src = a_source(am)
+            tns = [n for n in sorted(src["exposes"]["types"]) if n not in taken]
+            ifc = {"name": nm("ifc"), "tracer": ctr.tracer(), "use": am["name"], "argtype": rng.choice(tns) if tns else None}
+            bm.setdefault("ifaces", []).append(ifc)
+            # (FORD's page of an interface shows no list of used modules - nothing to observe for the USE itself;
+            #  what it makes accessible is observable: the type of the dummy argument)
+            if ifc["argtype"]:
+                tn = ifc["argtype"]
+                expect.append({"page": ("interface", ifc["name"]), "text": tn, "alt": src["alias"].get(tn),
+                               "target": ("A", src["exposes"]["types"][tn]["tracer"]),
+                               "why": "argument of external type (interface body)"})
         # [[...]] references in the module's documentation
         if links_ok:
+            pre_names = {p_["name"].lower() for p_ in preludes}
             cands = []
             for u in bm["uses"]:
                 if clash_mod and u["mod"].lower() == clash_mod["name"].lower():
+                    continue
+                if u["mod"].lower() in pre_names:
                     continue
                 am = module_of(A, u["mod"])
                 cands.append((f"[[{spell(rng, am['name'])}]]", am["name"], am["tracer"], "link to module"))
             # identifiers that name more than one entity of A (constructor, component / binding vs module
             # entity ...): references to them come first, each must reach the entity of the kind referred to
-            count = {}
-            for k_, m_, e_, p_ in a_entities(A):
-                count[e_["name"].lower()] = count.get(e_["name"].lower(), 0) + 1
-            for tn in vtypes:
-                if tn in alias:
-                    continue
-                e = visible["types"][tn]
-                cands.append((f"[[{spell(rng, tn)}]]", tn, e["tracer"], "link to type"))
-                for c in e["comps"]:
-                    if c["acc"] != "private":
-                        cands.append((f"[[{tn}:{c['name']}]]", c["name"], c["tracer"], "link to component"))
-                for b in e["bound"]:
-                    cands.append((f"[[{tn}:{b['name']}]]", b["name"], b["tracer"], "link to binding"))
-            for p in vprocs:
-                if p in alias:
-                    continue
-                e = visible["procs"][p]
-                if e.get("ctor_of"):
-                    continue      # unqualified, the identifier means the type (asked for above)
-                cands.append((f"[[{spell(rng, p)}]]", p, e["tracer"], "link to procedure"))
-            for vn in vvars:
-                e = visible["vars"][vn]
-                own = owner_module(A, vn)
-                if own is not None and not (clash_mod and own["name"].lower() == clash_mod["name"].lower()):
-                    cands.append((f"[[{own['name']}:{vn}]]", vn, e["tracer"], "link to module variable"))
+            count = shared_count(A)
+            cands += entity_refs(rng, A, {tn: visible["types"][tn] for tn in vtypes if tn not in alias},
+                                 {p: visible["procs"][p] for p in vprocs if p not in alias},
+                                 {vn: visible["vars"][vn] for vn in vvars}, clash_mod)
             local_names = {x["name"].lower() for mm in bmods for x in mm["types"] + mm["subs"] + [mm]}
             rng.shuffle(cands)
             cands.sort(key=lambda c: count.get(c[1].lower(), 0) < 2)      # stable: shared identifiers first
@@ -584,7 +635,75 @@ def gen_b(rng: random.Random, A: dict, links_ok: bool = True, clashes: bool = Tr
             program["calls"].append(c)
             expect.append({"page": ppage, "text": n, "alt": org[n] if org[n] != n else None, "target": ("A", e["tracer"]),
                            "why": "call of external " + c["kind"] + " (program)", "graph": True})
+    # ---- B's documentation points the reader to parts of A that B's code does not build on: `[[...]]` references,
+    #      from a module that uses nothing, to modules of A that no USE statement of B names (and to what is in
+    #      them), and to others.  The statement: "every public entity of A that B ... names in a [[...]] reference".
+    if doc_only and links_ok and free:
+        used = {u["mod"].lower() for mm in bmods for u in mm["uses"]} | \
+               {s_["use"].lower() for mm in bmods for s_ in mm["subs"] if s_.get("use")} | \
+               {i_["use"].lower() for mm in bmods for i_ in mm.get("ifaces", [])} | \
+               ({program["use"].lower()} if program else set())
+        unused = [m for m in free if m["name"].lower() not in used]
+        dm = {"name": nm("doc"), "tracer": ctr.tracer(), "uses": [], "types": [], "subs": [], "refs": [],
+              "vars": [{"name": nm("var"), "type": None, "tracer": ctr.tracer()}], "doc_only": True}
+        local_names = {x["name"].lower() for mm in bmods for x in mm["types"] + mm["subs"] + [mm]}
+        count = shared_count(A)
+        # (names B defines itself - the clash scenarios - are not referred to as A's: see above)
+        picked = [m for m in (unused if unused else []) + [m for m in free if m not in unused][: 0 if unused else 1]
+                  if m["name"].lower() not in local_names]
+        for am in picked[:2]:
+            tag = "unused module of A" if am in unused else "from a module of B that uses nothing"
+            cands = [(f"[[{spell(rng, am['name'])}]]", am["name"], am["tracer"], "link to module")]
+            cands += entity_refs(rng, A, {t["name"].lower(): t for t in am["types"]
+                                          if is_public(am, t) and t["name"].lower() not in local_names},
+                                 {e["name"].lower(): e for e in am["funcs"] + am["subs"] + am["generics"] if is_public(am, e)},
+                                 {v["name"].lower(): v for v in am["vars"] if is_public(am, v)}, clash_mod)
+            head, rest = cands[:1], cands[1:]
+            rng.shuffle(rest)
+            for text, name, tracer, why in head + rest[:4]:
+                if name.lower() in local_names or any(ex_["text"].lower() == name.lower() and ex_["page"] == ("module", dm["name"])
+                                                      for ex_ in expect):
+                    continue
+                dm["refs"].append(text)
+                expect.append({"page": ("module", dm["name"]), "text": name, "target": ("A", tracer), "ford_link": True,
+                               "why": f"{why} ({tag})" + (" (identifier shared by several entities of A)"
+                                                          if count.get(name.lower(), 0) > 1 else "")})
+        if dm["refs"]:
+            bmods.append(dm)
     return {"modules": bmods, "expect": expect, "has_clash_module": clash_mod is not None, "program": program}
+
+
+def shared_count(A) -> dict:
+    """lower-cased identifier -> number of documented entities of A that carry it"""
+    count = {}
+    for k_, m_, e_, p_ in a_entities(A):
+        count[e_["name"].lower()] = count.get(e_["name"].lower(), 0) + 1
+    return count
+
+
+def entity_refs(rng, A, types: dict, procs: dict, variables: dict, clash_mod) -> list:
+    """`[[...]]` references to public entities of A, in the documented forms: `[[type]]`, `[[type:component]]`,
+    `[[type:binding]]`, `[[procedure]]`, `[[module:variable]]` -> (text, name linked, tracer, why)"""
+    cands = []
+    for tn in sorted(types):
+        e = types[tn]
+        cands.append((f"[[{spell(rng, tn)}]]", tn, e["tracer"], "link to type"))
+        for c in e["comps"]:
+            if c["acc"] != "private":
+                cands.append((f"[[{tn}:{c['name']}]]", c["name"], c["tracer"], "link to component"))
+        for b in e["bound"]:
+            cands.append((f"[[{tn}:{b['name']}]]", b["name"], b["tracer"], "link to binding"))
+    for p in sorted(procs):
+        e = procs[p]
+        if e.get("ctor_of"):
+            continue      # unqualified, the identifier means the type (asked for above)
+        cands.append((f"[[{spell(rng, p)}]]", p, e["tracer"], "link to procedure"))
+    for vn in sorted(variables):
+        e = variables[vn]
+        own = owner_module(A, vn)
+        if own is not None and not (clash_mod and own["name"].lower() == clash_mod["name"].lower()):
+            cands.append((f"[[{own['name']}:{vn}]]", vn, e["tracer"], "link to module variable"))
+    return cands
 
 
 def call_of(A, e, spelled, arg0, arg0_type):
@@ -645,6 +764,12 @@ def render_b(B, rng) -> dict:
             else:
                 L.append(f"  use {spell(rng, u['mod'])}")
         L.append("  implicit none")
+        if m.get("default") == "private":
+            L.append("  private")
+            if m.get("public_list"):
+                L.append("  public :: " + ", ".join(m["public_list"]))
+        elif m.get("public_stmt"):
+            L.append("  public")
         for t in m["types"]:
             ext = f", extends({t['extends']})" if t.get("extends") else ""
             L += [f"  type{ext} :: {t['name']}", f"    !! {t['tracer']} type doc"]
@@ -660,6 +785,11 @@ def render_b(B, rng) -> dict:
                 L += [f"  type({v['type']}) :: {v['name']}", f"    !! {v['tracer']} variable doc"]
             else:
                 L += [f"  integer :: {v['name']}", f"    !! {v['tracer']} variable doc"]
+        for ifc in m.get("ifaces", []):
+            L += ["  interface", f"    subroutine {ifc['name']}(x)", f"      !! {ifc['tracer']} interface doc",
+                  f"      use {ifc['use']}",
+                  f"      type({ifc['argtype']}), intent(inout) :: x" if ifc["argtype"] else "      integer, intent(inout) :: x",
+                  f"    end subroutine {ifc['name']}", "  end interface"]
         if m["subs"]:
             L.append("contains")
         for s in m["subs"]:
